@@ -332,7 +332,7 @@ class Endpoint:
         """
         modified_params = previously_modified_params or set()
         used_python_names: dict[PythonIdentifier, tuple[oai.ParameterLocation, Property]] = {}
-        reserved_names = ["client", "url"]
+        reserved_names = ["client", "url", "headers", "params", "cookies", "body"]
         for parameter in self.iter_all_parameters():
             location, prop = parameter
 
